@@ -50,6 +50,7 @@ type GhostStmt struct {
 	RHS    SExpr
 	Kind   string // "assign", "assert", "assume"
 	Src    string
+	Tags   []string
 }
 
 type FuncContract struct {
@@ -76,6 +77,7 @@ type FuncContract struct {
 }
 
 type Lemma struct {
+	Hints     []SExpr
 	Name      string
 	Params    []SpecParam
 	InductOn  string
@@ -330,6 +332,15 @@ func parseContractText(text, path, importPath string) (pc *PkgContracts, err err
 						panic(fmt.Errorf("expected 'by induction on <var>'"))
 					}
 					lm.InductOn = p.ident()
+					if p.isID("with") {
+						p.next()
+						for {
+							lm.Hints = append(lm.Hints, p.expr())
+							if !p.accept(",") {
+								break
+							}
+						}
+					}
 				}
 				p.expect(":")
 				lm.Src = p.rest()
@@ -524,11 +535,12 @@ func parseContractText(text, path, importPath string) (pc *PkgContracts, err err
 					switch {
 					case strings.HasPrefix(body, "assert "):
 						g.Kind = "assert"
-						ex, e := parseSpecExpr(body[7:])
+						cl, e := parseClause(body[7:])
 						if e != nil {
 							panic(e)
 						}
-						g.RHS = ex
+						g.RHS = cl.Expr
+						g.Tags = cl.Tags
 					case strings.HasPrefix(body, "assume "):
 						g.Kind = "assume"
 						ex, e := parseSpecExpr(body[7:])
@@ -536,6 +548,14 @@ func parseContractText(text, path, importPath string) (pc *PkgContracts, err err
 							panic(e)
 						}
 						g.RHS = ex
+					case strings.HasPrefix(body, "apply "):
+						g.Kind = "apply"
+						cl, e := parseClause(body[6:])
+						if e != nil {
+							panic(e)
+						}
+						g.RHS = cl.Expr
+						g.Tags = cl.Tags
 					case strings.HasPrefix(body, "ghost "):
 						g.Kind = "assign"
 						p, e := newParser(body[6:])
